@@ -208,6 +208,11 @@ func sleepUntil(t time.Time) {
 func poolConns(p *connpool.Pool) []*pipelineConn {
 	var out []*pipelineConn
 	v := reflect.ValueOf(p).Elem()
+	// take the pool's own mutex: the maps are written by exchange goroutines
+	mf := v.FieldByName("m")
+	mu := (*sync.Mutex)(unsafe.Pointer(mf.UnsafeAddr()))
+	mu.Lock()
+	defer mu.Unlock()
 	for _, fn := range []string{"busyConns", "idleConns"} {
 		f := v.FieldByName(fn)
 		f = reflect.NewAt(f.Type(), unsafe.Pointer(f.UnsafeAddr())).Elem()
